@@ -101,7 +101,10 @@ class NDArr:
         self.dtype = dtype
 
     def clone(self):
-        return NDArr(self.shape, self.flat, self.dtype)
+        c = NDArr(self.shape, self.flat, self.dtype)
+        if getattr(self, "integral", False):
+            c.integral = True
+        return c
 
     def index(self, idx):
         k = 0
@@ -237,6 +240,23 @@ def opaque_copy(st, o, why=None):
     r = Opaque(why or ("copy of " + o.why), idx=o.idx)
     BUF_ORIGIN[r.buf] = content_token(st, o)
     return r
+
+
+def concrete_int(x):
+    """python int of a value that must be a concrete integer (CheckerError otherwise)"""
+    if isinstance(x, bool):
+        raise CheckerError("boolean where a concrete integer is expected")
+    if isinstance(x, int):
+        return x
+    if isinstance(x, float) and x == int(x):
+        return int(x)
+    if is_sym(x):
+        s_ = simp(x)
+        if z3.is_int_value(s_):
+            return s_.as_long()
+        if z3.is_rational_value(s_) and s_.denominator_as_long() == 1:
+            return s_.numerator_as_long()
+    raise CheckerError("not a concrete integer: %r" % (x,))
 
 
 class PState:
@@ -1008,6 +1028,21 @@ class PyExec:
                 self.assign(st, g.target, item, e2)
                 out.append(self.eval(st, n.elt, e2))
             return st.new(PList(out))
+        if isinstance(n, ast.ListComp) and len(n.generators) > 1 and not any(g.ifs for g in n.generators) and not self.opaque_unknown:
+            # nested generators over concrete sequences (e.g. the lattice-point tables)
+            out = []
+
+            def rec(k, e_):
+                if k == len(n.generators):
+                    out.append(self.eval(st, n.elt, e_))
+                    return
+                g_ = n.generators[k]
+                for item in self.iterate(st, self.eval(st, g_.iter, e_)):
+                    e2 = dict(e_)
+                    self.assign(st, g_.target, item, e2)
+                    rec(k + 1, e2)
+            rec(0, env)
+            return st.new(PList(out))
         if isinstance(n, ast.JoinedStr):
             return "<fstring>"
         if self.opaque_unknown and isinstance(n, ast.ListComp):
@@ -1507,7 +1542,7 @@ class PyExec:
                 # these return the same memory when no conversion is needed
                 return Opaque(f.name.split(".")[-1] + "(" + args[0].why + ")", buf=args[0].buf, idx=args[0].idx)
             if any(isinstance(a_, Opaque) for a_ in list(args) + list(kwargs.values())):
-                return Opaque("library call on an abstracted value")
+                return Opaque("library call on an abstracted value: %s" % f.name)
             try:
                 return self.modcall(st, f.name, args, kwargs, n)
             except (CheckerError, AttributeError, TypeError, KeyError, IndexError):
@@ -1622,6 +1657,25 @@ class PyExec:
             o = st.heap[int(name.split("@")[1])]
             ts = [truth(x) for x in o.flat]
             return simp(z3.And(*ts) if ".all@" in name else z3.Or(*ts))
+        if name.startswith("nd.astype@"):
+            o = st.heap[int(name.split("@")[1])]
+            tgt = args[0] if args else kwargs.get("dtype")
+            tname = tgt.name if isinstance(tgt, Builtin) else (tgt if isinstance(tgt, str) else None)
+            if tname in ("int", "intc", "int64", "int32", "int_"):
+                if getattr(o, "integral", False):
+                    return st.new(o.clone())         # values known (assumed by the caller's contract) to be integral: unchanged
+                out = []
+                for x in o.flat:
+                    x = num(x)
+                    if is_sym(x) and x.sort() == z3.IntSort():
+                        out.append(x)
+                    else:
+                        x = to_real(x)
+                        out.append(z3.If(x >= 0, z3.ToInt(x), -z3.ToInt(-x)))      # C truncation toward zero
+                return st.new(NDArr(o.shape, out, "int64"))
+            if tname in ("float", "double", "float64"):
+                return st.new(NDArr(o.shape, [to_real(num(x)) for x in o.flat], "double"))
+            raise CheckerError("astype(%r) is outside the modelled subset" % (tgt,))
         if name.startswith("nd.ravel@") or name.startswith("nd.flatten@"):
             o = st.heap[int(name.split("@")[1])]
             return st.new(NDArr((len(o.flat),), o.flat, o.dtype))
@@ -1698,6 +1752,12 @@ class PyExec:
                 return self.det(st, self.to_nd(st, args[0]))
             if short == "inv":
                 return self.inv(st, self.to_nd(st, args[0]), node)
+            if short == "unique" and kwargs.get("axis") == 0:
+                a = self.to_nd(st, args[0])
+                if len(a.shape) != 2:
+                    raise CheckerError("np.unique(axis=0) of a non-2D array")
+                rows = sorted({tuple(concrete_int(a.flat[i * a.shape[1] + j]) for j in range(a.shape[1])) for i in range(a.shape[0])})
+                return st.new(NDArr((len(rows), a.shape[1]), [z3.IntVal(x) for r_ in rows for x in r_], "int64"))
             if short == "transpose":
                 a = self.to_nd(st, args[0])
                 n_, m_ = a.shape
